@@ -52,10 +52,15 @@ def gapOk (last its : Option Nat) (d : Nat) : Bool :=
   | some t, some ts => decide (t + d ≤ ts)
   | _, _ => true
 
+def monoNext (mono : Bool) (hi : Nat) (its : Option Nat) : Bool :=
+  match its with | none => mono | some ts => mono && decide (hi ≤ ts)
+def hiNext (hi : Nat) (its : Option Nat) : Nat :=
+  match its with | none => hi | some ts => max hi ts
+
 def minGapMon (strict : Bool) (m : MinGapSt) : Ev → Option MinGapSt
   | (op, out) =>
-    let mono' := match op.r.its with | none => m.mono | some ts => m.mono && decide (m.hi ≤ ts)
-    let hi' := match op.r.its with | none => m.hi | some ts => max m.hi ts
+    let mono' := monoNext m.mono m.hi op.r.its
+    let hi' := hiNext m.hi op.r.its
     match out with
     | none => some { m with mono := mono', hi := hi' }
     | some c =>
